@@ -1,7 +1,7 @@
 INIT Init
 NEXT NextPool
 CONSTANTS
-  HomogIds <- H_All
+  HomogIds <- H_Shapes
   MaxHomog = 2
   SaltIds <- S_All
   SaltWith <- W_Water
